@@ -78,7 +78,8 @@ def _(self: "Dm1", cookie: "Dm1Cookie"):
                                                    dtc_oc_of(self._dtc_dic_list[j]), b), 0, 4), 0, _i1))
     callout_assume("the DM1 callback returns (lamp dictionary, list of well-formed trouble code dictionaries: spn < 2^19, fmi < 32, oc < 128 if present)",
                    forall(lambda j: dtc_entry_ok(ret[1][j]), 0, len(ret[1])), on=cookie['cb'])
-    callout_check("C16.dm1.cb_first", len(trace) == n0 + 1)
+    # the user callback is the first thing called (before anything is sent)
+    callout_check("C16.dm1.cb_first", implies(ev.fn == cookie['cb'], len(trace) == n0 + 1))
     ensures("C16.dm1.build", result == True, len(trace) == n0 + 2,
             trace[n0].fn == cookie['cb'] and trace[n0].n == 0,
             trace[n0 + 1].fn == fn("ControllerApplication.send_pgn") and trace[n0 + 1].o0 == self._ca
